@@ -38,7 +38,9 @@ type c04fx struct {
 	nodes    []base.LocalNode // suffrage members n0..; n0 is the local node of the box
 	outsider base.LocalNode   // not a member
 	forged   base.LocalNode   // address of the last member, foreign key
-	suf      base.Suffrage
+	suf      base.Suffrage // suffrage of block heights >= changeAt (of every height when changeAt == 0)
+	oldsuf   base.Suffrage // suffrage of block heights < changeAt
+	changeAt int64         // block height from which `suf` is in charge (0 = one suffrage for all heights)
 	sfs      map[string]base.BallotSignFact
 	sfid     map[string]string // sign fact identity -> menu id
 	ops      map[string]base.SuffrageExpelOperation
@@ -67,6 +69,37 @@ func c04newFx(n int, th base.Threshold) *c04fx {
 	fx.suf = suf
 	fx.proto = NewBallotbox(fx.nodes[0].Address(), func() base.Threshold { return th },
 		func(base.Height) (base.Suffrage, bool, error) { return nil, false, nil })
+	return fx
+}
+
+// sufFor is the suffrage in charge of stage points of height blockHeight+1 (what getSuffrage(blockHeight) returns)
+func (fx *c04fx) sufFor(blockHeight base.Height) base.Suffrage {
+	if fx.changeAt > 0 && blockHeight.Int64() < fx.changeAt {
+		return fx.oldsuf
+	}
+	return fx.suf
+}
+
+// sufOfPoint is the suffrage of a stage point
+func (fx *c04fx) sufOfPoint(sp base.StagePoint) base.Suffrage {
+	return fx.sufFor(sp.Height().SafePrev())
+}
+
+// c04newFxChange: `total` nodes n0..; the suffrage is oldIdx for block heights < changeAt and newIdx from changeAt on
+func c04newFxChange(total int, th base.Threshold, oldIdx, newIdx []int, changeAt int64) *c04fx {
+	fx := c04newFx(total, th)
+	mk := func(idx []int) base.Suffrage {
+		nodes := make([]base.Node, len(idx))
+		for i, j := range idx {
+			nodes[i] = fx.nodes[j]
+		}
+		suf, err := isaac.NewSuffrage(nodes)
+		if err != nil {
+			panic(err)
+		}
+		return suf
+	}
+	fx.oldsuf, fx.suf, fx.changeAt = mk(oldIdx), mk(newIdx), changeAt
 	return fx
 }
 
@@ -213,6 +246,7 @@ func (fx *c04fx) sfName(sf base.BallotSignFact) string {
 //   "init:<h>.<r>" INIT majority voteproof of (h,r) fact A signed by all members
 //   "draw:<h>.<r>" INIT draw voteproof of (h,r) (members vote pairwise different facts)
 //   "xacc:<h>"     ACCEPT majority voteproof of (h,0) signed only by non-members (passes IsValid, fails with the suffrage)
+//   "accs:<h>:<signers>" ACCEPT majority voteproof of (h,0) signed by exactly the listed nodes
 //   "iexp:<h>.<r>:<target>" INIT expel voteproof of (h,r): majority fact A with expel of target, signed by the other members
 func (fx *c04fx) voteproof(id string) base.Voteproof {
 	if vp, ok := fx.vps[id]; ok {
@@ -239,6 +273,19 @@ func (fx *c04fx) voteproof(id string) base.Voteproof {
 				}
 				sfs = append(sfs, sf)
 			}
+		}
+		avp := isaac.NewACCEPTVoteproof(p.point())
+		avp.SetMajority(fx.fact(p, "A", false, nil)).SetSignFacts(sfs).SetThreshold(fx.th).Finish()
+		vp = avp
+	case "accs":
+		// "accs:<h>:<signers>" ACCEPT majority voteproof of (h,0), fact A, signed by exactly the listed nodes
+		parts := strings.SplitN(rest, ":", 2)
+		var h int64
+		fmt.Sscanf(parts[0], "%d", &h)
+		p := c04sp{h: h, accept: true}
+		var sfs []base.BallotSignFact
+		for _, who := range strings.Split(parts[1], ",") {
+			sfs = append(sfs, fx.signFact(who, p, "A", false, nil, "vp"))
 		}
 		avp := isaac.NewACCEPTVoteproof(p.point())
 		avp.SetMajority(fx.fact(p, "A", false, nil)).SetSignFacts(sfs).SetThreshold(fx.th).Finish()
